@@ -186,6 +186,25 @@ theorem rename_paint_solid (p : PlanIn) (src bytes : List Nat) (h : renameNode p
     cases h
     exact ⟨npal, hnpal, by simp [writeBE]⟩
 
+/-- **Solid fills resolve to the same colour.**  Composition of the paint-graph theorem (a kept PaintSolid
+node is its source record with the palette index renamed, `rename_paint_solid`) with
+`cpal_colors_preserved`: the subset's PaintSolid names an entry `e'` of the subset CPAL that has, in every
+palette, the colour the source entry `e` has in the source CPAL; alpha is copied.  (The foreground index
+0xFFFF is mapped to itself by `remap_palette_indices` and needs no CPAL entry.) -/
+theorem colr_colours_resolve_equal (p : PlanIn) (keys : List Nat) (hpal : p.palettes = remapPaletteIndices keys)
+    (hs : keys.Pairwise (· < ·)) (hk : ∀ k ∈ keys, k < 65536)
+    (src bytes : List Nat) (hren : renameNode p 2 src = .ok bytes)
+    (cpal cpalOut : List Nat) (hb : ∀ x ∈ cpal, x < 256)
+    (hok : subsetCpal cpal (remapPaletteIndices keys) = .ok cpalOut)
+    (hd : SubsetCpal.Header) (hhd : SubsetCpal.readHeader cpal = some hd) (hv : hd.version ≤ 1)
+    (he : beValue ((src.drop 1).take 2) < hd.numEntries) (hne : beValue ((src.drop 1).take 2) ≠ 0xFFFF)
+    (pal : Nat) (hp : pal < hd.numPalettes) :
+    ∃ e', bytes = src.take 1 ++ beBytes 2 e' ++ src.drop 3 ∧
+      color cpalOut pal e' = color cpal pal (beValue ((src.drop 1).take 2)) := by
+  obtain ⟨npal, hl, hbytes⟩ := rename_paint_solid p src bytes hren
+  rw [hpal] at hl
+  exact ⟨npal, hbytes, cpal_colors_preserved cpal cpalOut keys hb hs hk hok hd hhd hv pal _ npal hp he hne hl⟩
+
 /-! ## COLR version 0 -/
 
 /-- **Version 0 records (structured part).**  For the base glyph records `kept` that `serialize_v0` retains
